@@ -51,6 +51,8 @@ type Monitor struct {
 	Waitcond   *CExpr
 	Guarantees []Clause
 	Name       string
+	Owns       map[string][]string // protected pointer field -> fields of the pointee that are protected with it
+	OwnsOrder  []string
 }
 
 type SpecFunc struct {
@@ -351,6 +353,17 @@ func (db *ContractDB) LoadFile(path, pkgPath string, assumed bool) error {
 				}
 			case "protects":
 				curMon.Protects = append(curMon.Protects, strings.Fields(strings.ReplaceAll(rest, ",", " "))...)
+			case "owns":
+				i := strings.Index(rest, ":")
+				if i < 0 {
+					return errf(l, "owns <pointer field>: <fields of the pointee>")
+				}
+				if curMon.Owns == nil {
+					curMon.Owns = map[string][]string{}
+				}
+				pf := strings.TrimSpace(rest[:i])
+				curMon.Owns[pf] = append(curMon.Owns[pf], strings.Fields(strings.ReplaceAll(rest[i+1:], ",", " "))...)
+				curMon.OwnsOrder = append(curMon.OwnsOrder, pf)
 			case "invariant", "guarantee":
 				c, err := mkClause(l, word, rest)
 				if err != nil {
